@@ -26,6 +26,7 @@ mut("C11", "checkstart-first-byte-only", ("interpreter.go", 'if string(head) != 
 mut("C11", "no-operand-stack-check", ("interpreter.go", "\tif len(intp.Stack) > maxOperandStackDepth {\n\t\treturn intp.e(eStackoverflow, \"operand stack overflow\")\n\t}\n", ""))
 mut("C11", "revert-limit-dispatch-fix", ("interpreter.go", "ok && e2 != ErrExecutionLimitExceeded {", "ok {"))
 mut("C11", "revert-nesting-fix", ("interpreter.go", "\t\tif !execProc {\n\t\t\t// Executing a name can run a procedure: this is a new level of\n\t\t\t// execution nesting, which must be counted like any other.\n\t\t\tif intp.execStackDepth >= 100 {\n\t\t\t\treturn intp.e(eExecstackoverflow, \"exec stack overflow\")\n\t\t\t}\n\t\t\tintp.execStackDepth++\n\t\t\tdefer func() { intp.execStackDepth-- }()\n\t\t}\n", ""))
+mut("C11", "revert-eexec-dictstack-fix", ("eexec.go", "\t\t// the section was not entered: remove systemdict again, otherwise\n\t\t// every failed attempt leaves one more entry on the dictionary stack\n\t\tintp.DictStack = intp.DictStack[:k]\n", ""))
 mut("C11", "dictstack-limit-only-in-loop-free-path", ("builtin.go", "\tif len(intp.DictStack) >= maxDictStackDepth {\n\t\treturn intp.e(eDictstackoverflow, \"begin\")\n\t}\n", "\tif len(intp.DictStack) >= maxDictStackDepth && intp.execStackDepth <= 1 {\n\t\treturn intp.e(eDictstackoverflow, \"begin\")\n\t}\n"))
 mut("C11", "string-limit-dropped", ("builtin.go", "\t} else if size > maxStringSize {\n", "\t} else if size > maxStringSize && size < 1<<31 {\n"))
 mut("C11", "budget-skipped-in-error-handler", ("interpreter.go", "\tif intp.MaxOps > 0 && intp.NumOps > intp.MaxOps {", "\tif intp.MaxOps > 0 && intp.NumOps > intp.MaxOps && len(intp.errors) == 0 {"))
